@@ -900,7 +900,12 @@ impl Analyzable for PropertyOp {
     fn analyze(&mut self, parent: Option<Rc<Scope>>) -> AnalyzeReport {
         let object = self.operand.analyze(parent.clone());
 
-        let mut scope = Scope::new(parent);
+        // a property name is looked up among the fields of the operand and nowhere else; what
+        // follows a list is an index, an expression of its own
+        let is_field_name = matches!(self.property.as_ref(), DataExpr::Identifier(_))
+            && !matches!(self.operand.target_type(), Some(Type::List(_)));
+
+        let mut scope = Scope::new(if is_field_name { None } else { parent });
 
         if let Some(ty) = self.operand.target_type() {
             scope.track_record_fields_for_type(&ty);
